@@ -143,6 +143,18 @@ Theorem C01_exact_number_of_winners_wigm_zero_batch_partial : forall A S (ZL : z
 Proof. exact count_winners_wigm_any. Qed.
 Print Assumptions C01_exact_number_of_winners_wigm_zero_batch_partial.
 
+(* ... and CfER WITH sure-loser batches (cfer-batch): no hypothesis on cf_batch.  The scan of cfer.py's batchDefeat only proposes a
+   prefix of the hopefuls in ascending order of tally, and only while "the others + elected >= seats"
+   (C07_cfer_batch_leaves_enough_candidates; Proofs/WinnersCferBatch.v) *)
+From Droop Require Import Proofs.WinnersCferBatch.
+Theorem C01_exact_number_of_winners_cfer_batch_partial : forall A S (ZL : zlike A S) cfg,
+  cf_method cfg = MWigm -> exact A = false -> 0 <= cf_nballots cfg -> 0 <= cf_nseats cfg ->
+  forall pr fuel s k, wf_profile pr -> cf_nballots cfg = ballot_total pr ->
+  exec (@crashed A) fuel (count_cmd A cfg RCfer) (init_state A cfg pr) = Some (s, k) -> k <> Abort ->
+  nlen (electeds A s) = Z.min (cf_nseats cfg) (nlen (eligibles A s)).
+Proof. exact count_winners_cfer_any. Qed.
+Print Assumptions C01_exact_number_of_winners_cfer_batch_partial.
+
 (* NO WITHDRAWN CANDIDATE IS CREDITED WITH A VOTE (third clause), at the end of every count that ends without a crash:
    the Gregory family (part of the whole-run invariant of C02/C06) and meek / warren (candidates that are neither hopeful
    nor elected hold nothing). *)
@@ -201,8 +213,10 @@ Example C01_concrete_cfer_and_prf_batch :
                      [(3, [1; 2]); (2, [2]); (1, [3; 2])] []) with
   | Done s true => map (@cid _) (electeds _ s) = [1; 2] /\ map (@cid _) (defeateds _ s) = [3]
   | _ => False
-  end) [(RCfer, mkConfig "cfer" MWigm 2 6 false false false false 0); (RWigmPrf, mkConfig "wigm-prf-batch" MWigm 2 6 false false true false 0)].
-Proof. apply Forall_cons; [vm_compute; split; reflexivity|]. apply Forall_cons; [vm_compute; split; reflexivity|]. apply Forall_nil. Qed.
+  end) [(RCfer, mkConfig "cfer" MWigm 2 6 false false false false 0); (RWigmPrf, mkConfig "wigm-prf-batch" MWigm 2 6 false false true false 0);
+       (RCfer, mkConfig "cfer-batch" MWigm 2 6 false false true false 0); (RWigm, mkConfig "wigm" MWigm 2 6 false true false false 0)].
+Proof. apply Forall_cons; [vm_compute; split; reflexivity|]. apply Forall_cons; [vm_compute; split; reflexivity|].
+  apply Forall_cons; [vm_compute; split; reflexivity|]. apply Forall_cons; [vm_compute; split; reflexivity|]. apply Forall_nil. Qed.
 
 (* ---- ... for every ballot file the reader accepts (see Props/C02.v for the reading of parse_file / to_count_profile):
    candidate ids are distinct by the reader's theorem, so the only hypothesis left is the fuel bound ---- *)
@@ -230,10 +244,10 @@ Theorem C01_exact_number_of_winners_cfer_for_every_accepted_file : forall A S (Z
 Proof. exact accepted_winners_cfer. Qed.
 Print Assumptions C01_exact_number_of_winners_cfer_for_every_accepted_file.
 
-(* wigm with any defeat_batch option and wigm-prf with or without sure-loser batches, for every accepted file *)
+(* wigm with any defeat_batch option, wigm-prf and cfer with or without sure-loser batches, for every accepted file *)
 Theorem C01_exact_number_of_winners_any_batch_option_for_every_accepted_file : forall A S (ZL : zlike A S) cfg,
   cf_method cfg = MWigm -> exact A = false -> 0 <= cf_nseats cfg ->
-  forall r, r = RWigm \/ r = RWigmPrf ->
+  forall r, r = RWigm \/ r = RWigmPrf \/ r = RCfer ->
   forall text p fuel s k, parse_file text = Ok p -> p_linesEq p = [] -> cf_nballots cfg = p_nBallots p ->
   exec (@crashed A) fuel (count_cmd A cfg r) (init_state A cfg (to_count_profile p)) = Some (s, k) -> k <> Abort ->
   nlen (electeds A s) = Z.min (cf_nseats cfg) (nlen (eligibles A s)).
